@@ -31,7 +31,7 @@ def main(tier):
                                          "refused": sum(1 for x in clines if x["reqs"][0]["obs"]["outcome"] == "refused"),
                                          "race_reports": len(races)}
         lines += clines
-        lines += [{"ev": "race", "accesses": json.loads(a)} for a in sorted({json.dumps(a) for a in races})]
+        lines += [{"ev": "race", "accesses": json.loads(a)} for a in sorted({json.dumps(a) for a in races if not any("(outside gokrb5)" in y for y in a)})]
         vlib.write_ndjson(trace, lines)
         nreal = len(lines)
         lines_req = [x for x in lines if "reqs" in x]
